@@ -14,9 +14,10 @@ from ..defs_reg_common import (new_file, rel_import, to_case, coq_closure, impl_
 
 THEOREMS = [
     "C12_ties_to_code", "C12_fuel_sufficient", "C12_parse_is_run_of_trace", "C12_trace_visits_reachable_once",
-    "C12_first_conflict", "C12_complete", "C12_complete_msg_id", "C12_complete_name", "C12_complete_range",
-    "C12_no_false_conflict", "C12_sound_partial", "C12_sound_refuted", "C12_range_exemption_refuted",
-    "C12_reserved_name_inj", "C12_ex_diamond_once", "C12_ex_cycle", "C12_ex_reserved_overlap",
+    "C12_first_conflict", "C12_complete", "C12_complete_msg_id", "C12_complete_name", "C12_complete_host_module_id",
+    "C12_complete_range", "C12_range_guards", "C12_no_false_conflict", "C12_sound_partial", "C12_sound_refuted",
+    "C12_sound_refuted_other_order", "C12_range_exemption_refuted", "C12_reserved_name_inj",
+    "C12_ex_diamond_once", "C12_ex_cycle", "C12_ex_reserved_overlap",
 ]
 
 PATHS = ["root.yaml", "a/f1.yaml", "a/b/f2.yaml", "c/f3.yaml", "a/b/d/f4.yaml", "c/e/f5.yaml"]
